@@ -54,6 +54,14 @@ def cases(tier):
                                 if mr == 2 and scale == 1.0:
                                     for mrt in ('np64', 'np32'):
                                         yield {'ep': 'tsvd', 'm': m_, 'n': n_, 'spec': spec, 'scale': scale, 'c': c, 'rel': rel, 'thr': thr, 'mr': mr, 'mrt': mrt}
+    # trains whose interior cores are ONE array object (homogeneous chains as the model constructors build them)
+    for n_ in (2, 3):
+        for d_ in (3, 4):
+            for rk_ in (2, 3):
+                for c in (False, True):
+                    for ep in ('ortho', 'right_on_left', 'left_on_right'):
+                        for mr in [1, 2, 3, 4] + [[1] + list(x_) + [1] for x_ in itertools.product([1, 2, INF], repeat=d_ - 1)]:
+                            yield {'ep': ep + '_shared', 'n': n_, 'd': d_, 'rk': rk_, 'c': c, 'thr': 0, 'mr': mr}
     deep_only = [[[3, 2], [4, 2]], [[2, 2], [3, 2], [2, 1]], [[4, 2], [3, 2]]]      # unfoldings of rank 6 (wide and tall): cuts down to 1e-10
     for sites in layouts(tier) + deep_only:
         d = len(sites)
@@ -70,8 +78,8 @@ def cases(tier):
                 caps = ([1, 2, 3, 4] if sites not in deep_only else [3, 4, 5]) + [[1] + list(x) + [1] for x in itertools.product([1, 2, 3, INF], repeat=d - 1)]
                 for ep in ('cores', 'ortho', 'ortho_hist', 'right_on_left', 'left_on_right', 'right_raw', 'left_raw'):
                     for mr in caps:
-                        if ep == 'cores' and isinstance(mr, list):
-                            continue
+                        if ep == 'cores' and isinstance(mr, list) and fam not in ('gauss', 'ties'):
+                            continue      # TT(cores, max_rank=list) hands the list on to ortho(): covered for two families
                         yield {'ep': ep, 'sites': sites, 'fam': fam, 'c': c, 'thr': 0, 'mr': mr}
                         if (isinstance(mr, list) and fam in ('gauss', 'ties')) or mr in (1, 2):
                             for mrt in (('np64',) if isinstance(mr, list) else ('np64', 'np32')):
@@ -219,12 +227,54 @@ def run_over(case, seed):
     return r
 
 
+def run_shared(case, seed):
+    """truncating sweeps over [a] + [c] * k + [b]: the interior cores are one ndarray object"""
+    r = R(case)
+    rng = rng_for({k: case[k] for k in ('n', 'd', 'rk', 'c')}, seed)
+    n_, d, rk, c = case['n'], case['d'], case['rk'], case['c']
+
+    def g(shp):
+        a_ = rng.standard_normal(shp)
+        return a_ + 1j * rng.standard_normal(shp) if c else a_
+    a, mid, b = g((1, n_, 1, rk)), g((rk, n_, 1, rk)), g((rk, n_, 1, 1))
+    from vt.core import dense_cores
+    x = dense_cores([a] + [mid] * (d - 2) + [b])[0, ..., 0]
+    mid0 = mid.copy()
+    T = tt_from([a] + [mid] * (d - 2) + [b])
+    T.cores = [T.cores[0]] + [T.cores[1]] * (d - 2) + [T.cores[-1]]          # one array object at every interior site
+    mr = case['mr']
+    caps = mr if isinstance(mr, list) else [1] + [mr] * (d - 1) + [1]
+    mr_arg = list(mr) if isinstance(mr, list) else mr
+    sv = [None] + [unfolding_svals(x, d, k) for k in range(1, d)]
+    key = 'trunc:' + case['ep']
+    r.nontrivial = True
+    with r.op(key + ':call'):
+        ep = case['ep'][:-len('_shared')]
+        if ep == 'ortho':
+            T.ortho(max_rank=mr_arg)
+        elif ep == 'right_on_left':
+            T.ortho_left(); T.ortho_right(max_rank=mr_arg)
+        else:
+            T.ortho_right(); T.ortho_left(max_rank=mr_arg)
+        mp = meta_problem(T)
+        if r.true(key + ':meta', mp is None, mp):
+            rk_out = list(T.ranks)
+            r.true(key + ':rank-cap', all(rk_out[k] <= caps[k] for k in range(1, d)), 'ranks %s cap %s' % (rk_out, caps))
+            err = np.linalg.norm((dn(T) - x).ravel())
+            bound = np.sqrt(sum(float(np.sum(sv[k][int(caps[k]):] ** 2)) if caps[k] != INF else 0.0 for k in range(1, d)))
+            r.le(key + ':quasi-optimal', err, bound * (1 + 1e-8), 1e-10 * max(1.0, np.linalg.norm(x.ravel())), 'caps %s ranks %s' % (caps, rk_out))
+    r.outcome = 'shared'
+    return r
+
+
 def run_case(case, seed):
     from scikit_tt.tensor_train import TT
     if case['ep'] == 'tsvd':
         return run_tsvd(case, seed)
     if case['ep'].endswith('_over'):
         return run_over(case, seed)
+    if case['ep'].endswith('_shared'):
+        return run_shared(case, seed)
     r = R(case)
     rng = rng_for({k: case[k] for k in ('sites', 'fam', 'c')}, seed)   # same tensor for all settings of a layout
     x = make_tensor(case, rng)
